@@ -468,8 +468,8 @@ func (x *c35Exec) exec(ops []string, o *vu.Out) {
 		case t[0] == "settings" && len(t) == 1:
 			o.Op(op, run(func() string {
 				var parts []string
-				err := st.readSettings(func(ty settingType, v int64) error {
-					parts = append(parts, fmt.Sprintf("%d=%d", int64(ty), v))
+				err := st.readSettings(func(ty, v int64) error {
+					parts = append(parts, fmt.Sprintf("%d=%d", ty, v))
 					return nil
 				})
 				s := "-"
@@ -556,6 +556,7 @@ func (x *c35Exec) req(k int, data []byte, o *vu.Out) string {
 	defer cleanup()
 	var gc genericConn
 	var bodyBytes []byte
+	reachedBody := false
 	h := &c35Handler{}
 	h.req = func(st *stream) error {
 		ft, err := st.readFrameHeader()
@@ -572,6 +573,7 @@ func (x *c35Exec) req(k int, data []byte, o *vu.Out) string {
 		if err := st.endFrame(); err != nil {
 			return err
 		}
+		reachedBody = true
 		body := &bodyReader{st: st, remain: -1}
 		buf := make([]byte, k)
 		for {
@@ -594,10 +596,12 @@ func (x *c35Exec) req(k int, data []byte, o *vu.Out) string {
 		if st.stream == nil {
 			sig = "overrun-nil-stream-panic"
 			// confirm on the real server path: serverConn.handleRequestStream on the same bytes
+			// (only possible when the overrun happens in the leading HEADERS frame; later ones need a
+			// complete valid request and a running HTTP handler)
 			if x.realServerPanics(data) {
 				o.Stat("req:panic-confirmed-on-serverConn")
 			} else {
-				sig = ""
+				o.Stat("req:panic-in-body-stage")
 			}
 		}
 		o.Fail(sig, fmt.Sprintf("handleRequestStream panicked (nil *quic.Stream after a frame-limit overrun inside QPACK decoding; handleStreamError calls st.stream.CloseRead()) on request stream bytes %x", data))
@@ -605,7 +609,7 @@ func (x *c35Exec) req(k int, data []byte, o *vu.Out) string {
 	}
 	out := fmt.Sprintf("%s herr=%s body=%s", res, c35ErrTag(h.herr), vu.Hex(bodyBytes))
 	if res != "ok panic" {
-		x.oracleReq(data, bodyBytes, h.herr, o)
+		x.oracleReq(data, bodyBytes, h.herr, reachedBody, o)
 	}
 	return out
 }
@@ -677,8 +681,14 @@ func c35Known(ft uint64) bool {
 // oracleReq: bytes handed to the body are a prefix of the concatenated DATA payloads that follow
 // the leading HEADERS frame; bytes of unknown frames never reach the body; a DATA or unknown frame
 // cut short by the end of the stream is reported with code H3_FRAME_ERROR.
-func (x *c35Exec) oracleReq(data, body []byte, herr error, o *vu.Out) {
+func (x *c35Exec) oracleReq(data, body []byte, herr error, reachedBody bool, o *vu.Out) {
 	frames := c35RefParse(data)
+	if !reachedBody {
+		if len(body) != 0 {
+			o.Fail("", fmt.Sprintf("body bytes %x delivered before the HEADERS frame was accepted: %x", body, data))
+		}
+		return
+	}
 	if len(frames) == 0 || frames[0].ftype != 1 || !frames[0].hdrOK {
 		if len(body) != 0 {
 			o.Fail("", fmt.Sprintf("body bytes %x delivered although the stream does not start with a HEADERS frame: %x", body, data))
